@@ -97,6 +97,7 @@ def run(ctx):
         mode = rng.choice(keymodes)
         # a plain python list holding None and ints cannot be sorted by python (used by &= in the Python version)
         calls = gen_history(rng, kind, u, length, avoid0=(mode == "none-int"))
+        ctx.progress({"family": fn, "kind": kind, "mode": mode, "sizes": [ml, mi], "calls": calls})
         ref = RefMap()
         want = [ref.call(c) for c in calls]
         results = {}
